@@ -46,7 +46,9 @@ func special(def *dbh.TableDef) string {
 	return ""
 }
 
-func ordered(kind string) bool { return kind == dbh.IdxSkip || kind == dbh.IdxUniqSkip || kind == dbh.IdxBtree }
+func ordered(kind string) bool {
+	return kind == dbh.IdxSkip || kind == dbh.IdxUniqSkip || kind == dbh.IdxBtree
+}
 
 // Battery compares every access path of every table with the model.
 func Battery(db *dbh.DB, m *dbh.MDB, defs []*dbh.TableDef, when string, identity bool) *vf.Failure {
@@ -63,7 +65,8 @@ func Battery(db *dbh.DB, m *dbh.MDB, defs []*dbh.TableDef, when string, identity
 		}
 		for i, c := range def.Cols {
 			col := sc.GetColumn(uint32(i))
-			if col.GetColumnName() != def.Name+"."+c.Name || dbh.TypeByte(col.GetType()) != c.TB() {
+			// the catalog folds table names to lower case (names are case-insensitive), column names are generated in lower case
+			if col.GetColumnName() != strings.ToLower(def.Name)+"."+c.Name || dbh.TypeByte(col.GetType()) != c.TB() {
 				return vf.Failf("schema-changed", "%s: table %s column %d is %s type %v, created as %s type %s", when, def.Name, i, col.GetColumnName(), col.GetType(), c.Name, c.T)
 			}
 		}
@@ -356,7 +359,9 @@ func Gen(t *rapid.T, o GenOpts) *Case {
 		k := rapid.IntRange(0, 9).Draw(t, "opk")
 		switch {
 		case len(g.defs) == 0 || (k == 0 && len(g.defs) < o.MaxTables):
-			def := genTable(t, fmt.Sprintf("t%d", len(g.defs)), o)
+			// table names are case-insensitive in the engine (the catalog folds them to lower case); some names are written with capitals
+			name := fmt.Sprintf(rapid.SampledFrom([]string{"t%d", "t%d", "t%d", "Tb%d", "tBL%d"}).Draw(t, "tname"), len(g.defs))
+			def := genTable(t, name, o)
 			g.defs = append(g.defs, def)
 			for _, cl := range def.Cols {
 				switch cl.Idx {
@@ -447,7 +452,18 @@ func genTable(t *rapid.T, name string, o GenOpts) *dbh.TableDef {
 		}
 		def.Cols = append(def.Cols, cl)
 	}
+	if cls == 3 && len(o.SpecialKind) > 0 && ncols >= 2 && rapid.Bool().Draw(t, "skind2") {
+		// a second index of the special kind on the last column, i.e. behind columns with other or no indexes
+		def.Cols[ncols-1].T = "i"
+		def.Cols[ncols-1].Idx = def.Cols[0].Idx
+	}
 	return def
+}
+
+// special2 reports whether the last column carries a second index of the table's special kind.
+func special2(def *dbh.TableDef) bool {
+	n := len(def.Cols)
+	return n >= 2 && special(def) != "" && def.Cols[n-1].Idx == def.Cols[0].Idx
 }
 
 func genDML(t *rapid.T, g *gstate, def *dbh.TableDef, o GenOpts) *dbh.Stmt {
@@ -490,6 +506,13 @@ func genDML(t *rapid.T, g *gstate, def *dbh.TableDef, o GenOpts) *dbh.Stmt {
 				key = live[rapid.IntRange(0, len(live)-1).Draw(t, "dupof")] // duplicate key (non-unique kinds)
 			}
 			r[0] = dbh.IntV(key)
+			if special2(def) {
+				if sp == dbh.IdxUniqSkip {
+					r[len(r)-1] = dbh.IntV(key + 1000000) // unique as well
+				} else {
+					r[len(r)-1] = dbh.IntV(key % 7) // duplicates, never NULL
+				}
+			}
 			for ci, cl := range def.Cols { // B-tree container keys are limited in length; keep strings short on these tables
 				if cl.T == "s" && !r[ci].Null && len(r[ci].S) > 20 {
 					r[ci] = dbh.StrV(r[ci].S[:20])
@@ -507,6 +530,13 @@ func genDML(t *rapid.T, g *gstate, def *dbh.TableDef, o GenOpts) *dbh.Stmt {
 			v = dbh.StrV(v.S[:20])
 		}
 		id := live[rapid.IntRange(0, len(live)-1).Draw(t, "uid")]
+		if special2(def) && cl.Name == def.Cols[len(def.Cols)-1].Name {
+			if sp == dbh.IdxUniqSkip {
+				v = dbh.IntV(id + 1000000) // keeps its (unique) value
+			} else {
+				v = dbh.IntV(int32(rapid.IntRange(0, 6).Draw(t, "uv2")))
+			}
+		}
 		return &dbh.Stmt{Kind: "update", Table: def.Name, Set: []dbh.SetItem{{Col: cl.Name, V: v}}, Where: dead(dbh.Leaf(def.Cols[0].Name, "=", dbh.IntV(id)))}
 	default:
 		idx := rapid.IntRange(0, len(live)-1).Draw(t, "did")
